@@ -143,6 +143,7 @@ type workerOut struct {
 	Doc         string           `json:"doc"`
 	Cases       []string         `json:"cases"`
 	CaseTotal   int              `json:"case_total"`
+	Info        any              `json:"info,omitempty"`
 	Observed    map[string]int64 `json:"observed_other_classes"`
 }
 
@@ -313,6 +314,9 @@ func TestSim(t *testing.T) {
 		out.Cases = append(out.Cases, c)
 	}
 	sort.Strings(out.Cases)
+	if scn.Info != nil {
+		out.Info = scn.Info()
+	}
 	out.Distinct = int64(len(fpsNon))
 	out.DistinctAll = int64(len(fpsAll))
 	out.WallS = time.Since(start).Seconds()
